@@ -208,7 +208,7 @@ Definition push_scalar (v : Value) (b : Builder) : Outcome Builder :=
 
 Fixpoint push (v : Value) (b : Builder) {struct v} : Outcome Builder :=
   match v with
-  | VNone | VUnit => push_none b
+  | VNone | VUnit | VUnitStruct => push_none b
   | VSome x | VNewtypeStruct x => push x b
   | _ =>
     match b with
